@@ -7,6 +7,9 @@ Tie.  poisson_solver.py is numpy/scipy code and cannot be lifted; every solver o
 CURRENT source and its float tables are read back and converted to the exact rationals they are:
 knots, quadrature points of every cell, weights, multFactor, the values of A, B, C, D, E at the points.
 
+ The function path applies rhoFactor since the repair c0d120c of /repo (theorems c14_rhs_func_spec,
+ c14_func_path_eq_discrete_path); a recurrence is reported under DiffEqSolver._solveModeFunc:rhoFactor.
+
  (1) exact oracle (independent of the Coq model): a dense assembly on fractions.Fraction with its own
      Cox-de Boor recursion from degree 0 over ALL basis functions, all cells, no overlap restriction, of
        mass[a,b] = sum w E B_b B_a x,  k2 = sum w D B_b B_a x,  PhiPsi = sum w C B_b B_a x,
@@ -262,7 +265,7 @@ def oracle_rhs_func(t, nodes, lo, hi, rhot):
         s = F(0)
         for (c, q, x, N, dN, aN) in nodes:
             if N[a] != 0:
-                s += t['w'][q] * t['mf'] * N[a] * x * rhot[c][q]
+                s += t['w'][q] * t['mf'] * N[a] * x * t['E'][c][q] * rhot[c][q]
         out.append(s)
     return out
 
@@ -319,7 +322,7 @@ def check_ranges(c, ps, t, out):
     got = [(s.start, s.stop) for s in ps._coeff_range]
     gots = [(s.start + sr, s.stop + sr) for s in ps._stiffness_range]
     out['n_or'] += 2 * len(exp)
-    cls = 'mVals-inexact-nTheta' if c['ntheta'] in (49, 98, 103, 107, 161, 187, 196, 197) else 'modes'
+    cls = 'modes'
     if got != exp:
         _fail(out, 'DiffEqSolver.__init__:coeff_range:%s' % cls,
               '_coeff_range %r differs from the Dirichlet/Neumann choice per mode value %r (nTheta %d, lNeumannIdx %r, uNeumannIdx %r)'
@@ -539,17 +542,20 @@ def check_batch(c, ps, bs, t, r, first, out):
         _fail(out, 'DiffEqSolver.solveEquation:linearity', 'mode %d: solve(a rho1 + b rho2) differs from a solve(rho1) + b solve(rho2) by %.3g' % (modes[I], d))
 
 
-def check_func_E(c, ps, bs, t, r, out):
+def check_func_E(c, ps, bs, t, r, M, out):
     """rho = 1 as a spline (values 1 at the nodes) and as a function must give the same potential"""
     I = c['solve_modes'][0]
+    lo, hi, A = oracle_system(M, t['nb'], c['lN'], c['uN'], int_modes(c['ntheta'])[I])
+    if solve_exact(A, [F(0)] * (hi - lo)) is None:
+        return                   # under-integrated: the exact system is singular, the code's output is arbitrary
     _, pd, _ = code_solve_one(ps, I, np.ones(t['nb'], dtype=complex), r)
     _, pf, _ = code_solve_one(ps, I, None, r, func=RHOF['one'])
     out['n_or'] += 1
     sc = float(np.max(np.abs(pd)) + np.max(np.abs(pf)) + 1e-300)
     if float(np.max(np.abs(pd - pf))) > 1e-7 * sc:
-        _fail(out, 'DiffEqSolver._solveModeFunc:rhoFactor-ignored',
-              'rhoFactor %s: solveEquation(rho = 1) and solveEquationForFunction(rho = 1) differ by %.3g (of %.3g): the function path '
-              'does not multiply its right-hand side by E' % (c['funcs']['E'], float(np.max(np.abs(pd - pf))), sc))
+        _fail(out, 'DiffEqSolver._solveModeFunc:rhoFactor',
+              'rhoFactor %s: solveEquation(rho = 1) and solveEquationForFunction(rho = 1) differ by %.3g (of %.3g): the two paths do not '
+              'solve the same equation ... = E rho (theorem c14_func_path_eq_discrete_path)' % (c['funcs']['E'], float(np.max(np.abs(pd - pf))), sc))
 
 
 def case_stage(c):
@@ -588,7 +594,7 @@ def case_stage(c):
     if not blocking:
         r, first = check_solves(c, ps, bs, t, nodes, M, out)
         first['M'] = M
-        for flag, fn, args in (('batch', check_batch, (c, ps, bs, t, r, first, out)), ('func_E', check_func_E, (c, ps, bs, t, r, out))):
+        for flag, fn, args in (('batch', check_batch, (c, ps, bs, t, r, first, out)), ('func_E', check_func_E, (c, ps, bs, t, r, M, out))):
             if c.get(flag):
                 try:
                     fn(*args)
@@ -666,7 +672,7 @@ def poly_add(a, b, sb=1):
 
 def manufactured(c):
     """phi* = polynomial of degree <= p with phi*(Dirichlet end) = 0, phi*'(Neumann end) = 0; A = -1, B = b0 + b1 r,
-    C = c0, D = d1 r, E = 1; f = A phi*'' + B phi*' + C phi* - m^2 D phi*  (all coefficients small dyadic rationals)"""
+    C = c0, D = d1 r, E = 2, rho = f / 2; f = A phi*'' + B phi*' + C phi* - m^2 D phi*  (all coefficients small dyadic rationals)"""
     p, a, b = c['p'], F(qparse(c['breaks'][0])), F(qparse(c['breaks'][-1]))
     lneu, uneu = c['m'] in c['lN'], c['m'] in c['uN']
     # factors: (r-a) or (r-a)^2-free ... build phi* = u(r) with the required end conditions
@@ -726,10 +732,12 @@ def manufactured_stage(c, out):
     bs = spl.BSplines(spl.make_knots(breaks, p, False), p, False, False)
     need = max(2 * p + 2, len(f) + p + 1)          # highest degree of an integrand
     qdeg = need + 1
-    Bf, Cf, Df, ff_ = fl(B), fl(C), fl(D), fl(f)
+    fh = [x / 2 for x in f]                         # E = 2, rho = f / 2
+    Bf, Cf, Df, ff_ = fl(B), fl(C), fl(D), fl(fh)
     try:
         ps = DiffEqSolver(qdeg, bs, bs.nbasis, c['ntheta'], lNeumannIdx=list(c['lN']), uNeumannIdx=list(c['uN']),
-                          drFactor=lambda r: Bf[0] + Bf[1] * r, rFactor=lambda r: Cf[0], ddThetaFactor=lambda r: Df[1] * r)
+                          drFactor=lambda r: Bf[0] + Bf[1] * r, rFactor=lambda r: Cf[0], ddThetaFactor=lambda r: Df[1] * r,
+                          rhoFactor=lambda r: 2.0)
     except Exception as e:
         _fail(out, 'DiffEqSolver.__init__:exception', 'manufactured: %s: %s' % (type(e).__name__, str(e)[:200]))
         out['skipped'] = True
@@ -769,8 +777,8 @@ def manufactured_stage(c, out):
     rs = [ff(x) for x in r]
     out['model_line'] = ('gk.case %d %d %d | %s | %s | %s | %s | %s | %s | %s | %s | %s | %s | %s |  | %s | f %d %s'
                          % (p, len(brk) - 1, n, ' '.join(map(str, c['lN'])), ' '.join(map(str, c['uN'])), qs(T),
-                            qs([x for row in pts for x in row]), qs(ws), qstr(h), tab([F(-1)]), tab(B), tab(C), tab(D), tab([F(1)]),
-                            qs(rs), c['m'], tab(f)))
+                            qs([x for row in pts for x in row]), qs(ws), qstr(h), tab([F(-1)]), tab(B), tab(C), tab(D), tab([F(2)]),
+                            qs(rs), c['m'], tab(fh)))
     out['model_values'] = qs([poly_eval(phi, x) for x in rs])
     if len({brk[k + 1] - brk[k] for k in range(len(brk) - 1)}) != 1:
         raise core.BrokenCheck('manufactured cases use uniform breaks')
@@ -1146,8 +1154,6 @@ def run():
                    'exactness for manufactured polynomial solutions is tested (exactly on the model with a rational rule, under a '
                    'condition-scaled bound on the code), not proved',
                    'that the Gauss-Legendre tables of numpy are the Gauss-Legendre rule is tested (moments of every cell), not proved',
-                   'REFUTED for right-hand sides given as functions when E is not 1: solveEquationForFunction ignores rhoFactor '
-                   '(c14_func_rhs_ignores_E_refuted; finding DiffEqSolver._solveModeFunc:rhoFactor-ignored)',
                    'gk_phi = value of self._rspline[a].eval (unit coefficient vector through nu_eval_spline_1d) is tied by the exact '
                    'comparison of the matrices, not by a Coq lemma'])
 
